@@ -220,7 +220,8 @@ func c13Permutations(env *fw.Env, idx int) fw.Result {
 			reps = 3 // same order again: map iteration order must not matter either
 		}
 		for rep := 0; rep < reps; rep++ {
-			br := runBuild(&w, dir, buildOpts{Order: ord})
+			// in a third of the worlds every finder run also raises a warning
+			br := runBuild(&w, dir, buildOpts{Order: ord, WarnEveryFind: fw.HashString("warn"+worldKey(&w))%3 == 0})
 			res.Evals++
 			if br.NewErr != nil {
 				return fw.Result{Verdict: fw.Inconclusive, Msg: br.NewErr.Error()}
